@@ -208,10 +208,15 @@ def bodyCase (arch name : String) (kv : List String) : String :=
   let bv := fun (w : Nat) k => BitVec.ofNat w (hx k)
   let u : Uni :=
     { isSdwa := hx "sdwa" != 0, clamp := hx "clamp" != 0, abs := bv 64 "abs", neg := bv 64 "neg", omod := bv 64 "omod"
-      src0Sel := bv 32 "s0sel", src1Sel := bv 32 "s1sel", dstSel := bv 32 "dsel", dstUnused := bv 8 "dun" }
+      src0Sel := bv 32 "s0sel", src1Sel := bv 32 "s1sel", dstSel := bv 32 "dsel", dstUnused := bv 8 "dun"
+      -- consulted by float handlers only (no body correspondence for those)
+      opSel := 0, opSelHi := 0, src0Neg := false, src1Neg := false, src2Neg := false, src0Abs := false, src1Abs := false
+      src2Abs := false, k2 := 0 }
   match resolveLane arch name u with
   | none => "untranslated"
   | some h =>
+    if Gen.Lane.coverage.any (fun r => r.arch == h.arch && r.name == h.name && (match r.cov with | .translatedF _ => true | _ => false))
+    then "float-body-not-tied" else
     if !h.ok u then "fault" else
     let vcc := bv 64 "vcc"
     let r : RawIn :=
